@@ -410,6 +410,75 @@ def strip_boot(m):
 
 
 # ------------------------------------------------------------------------------------------ thin
+# ------------------------------------------------------------------------------------------ LARGE stream (family Q)
+def month_period(i, y0=1990):
+    y, m = add_m(y0, 1, i)
+    return D(y, m, 1), month_end(y, m)
+
+
+def gen_big_sample(rng, spec):
+    """Large sample-valued triangles, judged by the Python-side oracles only (no Coq literals):
+       cells >= 512 / 1100 / 2100 / 3100 with sample arrays in only a few cells that sit between any stride, or
+       in every cell; arrays of 4096 / 5000 / 40 000 / 10^5 samples incl. reversed (strided) views."""
+    from bermuda import CumulativeCell, Metadata, Triangle
+
+    ncells, n, where = spec["cells"], spec["n"], spec["arrays"]
+    nper = max(1, ncells // 2)
+    idx_arrays = set(range(ncells)) if where == "all" else {1, (ncells - 2) | 1} | {rng.randrange(ncells - 1) | 1 for _ in range(4)}      # odd positions: off every even stride
+    g = np.random.default_rng(rng.randrange(10**9))
+    cells, i = [], 0
+    big = 2**53 + 1
+    m = Metadata(details={"id": 20240000001}, per_occurrence_limit=2**53 + 1)
+    for p_ in range(nper):
+        ps, pe = month_period(p_)
+        for lag in range(2 if ncells > 1 else 1):
+            y, mo = add_m(pe.year, pe.month, lag)
+            vals = {"earned_premium": big + p_}                                  # integers beyond 2**53 as values
+            if i in idx_arrays and i < ncells:
+                a = (g.permutation(n) + 1 + 10 * i).astype(np.int64 if n < 20000 else np.float64)   # distinct values
+                vals["paid_loss"] = a[::-1] if spec.get("views") and i % 2 else a   # a reversed (negative-stride) view
+                if spec.get("relation", True):
+                    vals["reported_loss"] = 2 * vals["paid_loss"] + 1
+            cells.append(CumulativeCell(period_start=ps, period_end=pe, evaluation_date=month_end(y, mo), values=vals, metadata=m))
+            i += 1
+    cells = cells[:ncells]
+    t = Triangle(cells)
+    return t, n, {"shape": f"LARGE:{ncells}cells/{n}samples/{where}", "n": n, "slices": 1, "kinds": ["big"], "mixed": where, "big": spec}
+
+
+def gen_big_boot(rng, spec):
+    from bermuda import CumulativeCell, Metadata, Triangle
+
+    P, L, S = spec["P"], spec["L"], spec["slices"]
+    fields = ["paid_loss", "earned_premium"][: spec.get("fields", 2)]
+    cells = []
+    for s_ in range(S):
+        m = Metadata(details={"id": 20240000001 + s_ if s_ % 2 else 2**53 + s_})      # ids beyond 2**31 / 2**53
+        for p_ in range(P):
+            ps, pe = month_period(p_ * spec.get("res", 1), 2001)
+            if spec.get("res", 1) > 1:
+                y, mo = add_m(ps.year, ps.month, spec["res"] - 1)
+                pe = month_end(y, mo)
+            base = rng.randint(50, 500)
+            for lag in range(L):
+                y, mo = add_m(pe.year, pe.month, lag * spec.get("res", 1))
+                cells.append(CumulativeCell(period_start=ps, period_end=pe, evaluation_date=month_end(y, mo), metadata=m,
+                                            values={f: (base * (lag + 1) + rng.randint(0, 40) if f != "earned_premium" else base) for f in fields}))
+    rng.shuffle(cells)
+    return Triangle(cells), {"shape": f"LARGE:{S}slices/{P}x{L}", "P": P, "L": L, "slices": S, "fields": fields, "feb": None, "res": 1, "big": spec}
+
+
+def rank_order_violations(x, out):
+    """vectorised form of: exists p, q with x[p] < x[q] and out[p] > out[q]"""
+    x, out = np.asarray(x, dtype=float), np.asarray(out, dtype=float)
+    order = np.argsort(x, kind="stable")
+    xs, os_ = x[order], out[order]
+    starts = np.flatnonzero(np.r_[True, xs[1:] > xs[:-1]])
+    gmax = np.maximum.reduceat(os_, starts)
+    gmin = np.minimum.reduceat(os_, starts)
+    return bool(len(starts) > 1 and (np.maximum.accumulate(gmax)[:-1] > gmin[1:]).any())
+
+
 def true_num_samples(t):
     """Sample count computed independently of Triangle.num_samples: the common size of all arrays of size > 1
     (None if they disagree), 1 if there is none."""
@@ -417,15 +486,17 @@ def true_num_samples(t):
     return 1 if not sizes else (sizes.pop() if len(sizes) == 1 else None)
 
 
-def thin_case(seed):
+def thin_case(seed, big=None):
     """-> dict(coq=bool-term|None, fails=[...], info)"""
     import bermuda.utils as U
 
     rng = random.Random(seed)
-    t, n, info = gen_sample_triangle(rng)
+    t, n, info = gen_big_sample(rng, big) if big else gen_sample_triangle(rng)
     n = true_num_samples(t)                      # from the arrays themselves, not from the library
     k = rng.choice([1, 1, 2, n - 1, n, n, n + 1, rng.randint(1, n + 2)])
     k = max(1, k)
+    if big:
+        k = rng.choice([1, 2, max(1, n - 1), max(1, n // 2), n])      # valid k: must not be refused
     s = rng.choice([0, 0, 1, 2**32 - 1, rng.randrange(10**6), rng.randrange(10**6), rng.randrange(10**6)])
     fails = []
     info["seed"] = s
@@ -514,13 +585,16 @@ def thin_case(seed):
         again = U.thin(t, k, seed=s)
         if canon(again) != canon(out):
             fails.append(f"same seed ({s}) twice gave different results")
-    # ---- model
+    digest = type(exc).__name__ if exc is not None else hash(canon(out))
+    # ---- model (LARGE cases are judged by the Python-side oracles only)
     try:
+        if big:
+            raise C.NotRepresentable("large")
         impl = f"(Err {cerr(exc)})" if exc is not None else f"(Ok {C.ccells(out.cells)})"
         term = (f"result_eqb (list_eqb cell_seqb) (thin {C.ccells(t.cells)} {k}%nat {nats(ndxs)})\n  {impl}")
     except C.NotRepresentable:
         term = None
-    return {"coq": term, "fails": fails, "info": info, "n_cells": len(t)}
+    return {"coq": term, "fails": fails, "info": info, "n_cells": len(t), "digest": digest}
 
 
 # ------------------------------------------------------------------------------------------ bootstrap
@@ -545,13 +619,13 @@ def develop_float(slice_cells, fac, sel=lambda f: True):
     return out
 
 
-def boot_case(seed):
+def boot_case(seed, big=None):
     import bermuda.utils as U
 
     B = importlib.import_module("bermuda.utils.bootstrap")
     rng = random.Random(seed)
-    t, info = gen_boot_triangle(rng)
-    n = rng.choice([1, 2, 3])
+    t, info = gen_big_boot(rng, big) if big else gen_boot_triangle(rng)
+    n = 1 if big else rng.choice([1, 2, 3])
     s = rng.choice([0, 0, 1, 2**32 - 1, rng.randrange(10**6), rng.randrange(10**6), rng.randrange(10**6)])
     fsel = rng.choice([None, None, rng.choice(info["fields"]), rng.sample(info["fields"], rng.randint(1, len(info["fields"]))), []])
     fails, terms, known = [], [], []
@@ -666,7 +740,8 @@ def boot_case(seed):
                         info["me_above_upper"] = info.get("me_above_upper", 0) + 1
                         known.append(f"replicate {i}: maximum-entropy series of {f} exceeds the upper limit {max(src)}: "
                                      f"max {max(outv)} for source {src}")
-                    bad = [(p, q) for p in range(len(src)) for q in range(len(src)) if src[p] < src[q] and outv[p] > outv[q]]
+                    bad = ([(p, q) for p in range(len(src)) for q in range(len(src)) if src[p] < src[q] and outv[p] > outv[q]]
+                           if len(src) <= 200 else (["(vectorised check)"] if rank_order_violations(src, outv) else []))
                     if bad:
                         fails.append(f"replicate {i}: maximum-entropy output does not keep the rank order of {f}: {bad[:2]}")
                 for c, c2 in zip(sl.cells, rc):
@@ -675,6 +750,8 @@ def boot_case(seed):
                             fails.append(f"replicate {i}: unselected field {f} changed")
             # ---- model, per slice
             try:
+                if big:
+                    raise C.NotRepresentable("large")
                 slt, rct = C.ccells(sl.cells), ccells_r(rc)
                 sel_t = "[" + ";".join(cstr(f) for f in fields) + "]"
                 if method == "atas":
@@ -693,7 +770,8 @@ def boot_case(seed):
     again = U.bootstrap(t, n, seed=s, field=fsel)
     if [canon(r) for r in again] != [canon(r) for r in reps]:
         fails.append(f"same seed ({s}) twice gave different replicates (n={n}, field={fsel!r})")
-    return {"coq": terms, "fails": fails, "info": info, "n_cells": len(t), "known": known}
+    return {"coq": terms, "fails": fails, "info": info, "n_cells": len(t), "known": known,
+            "digest": hash(tuple(canon(r) for r in reps))}
 
 
 U1 = {"kind": "max_entropy_exceeds_upper_limit"}
@@ -706,12 +784,12 @@ def limits_verdict(out, lo, hi):
     return below, above
 
 
-def me_case(seed):
+def me_case(seed, big=None):
     """maximum_entropy_ensemble called directly: explicit limits incl. (0, max), wider limits, None, one-sided"""
     B = importlib.import_module("bermuda.utils.bootstrap")
     rng = random.Random(seed)
-    n = rng.randint(2, 8)
-    style = rng.choice(["plain", "small_min", "small_min", "ties", "float", "unsorted"])
+    n = big["n"] if big else rng.randint(2, 8)
+    style = rng.choice(["plain", "small_min", "small_min", "ties", "float", "unsorted"]) if not big else rng.choice(["float", "unsorted"])
     if style == "small_min":
         x = sorted([rng.randint(1, 5)] + [rng.randint(300, 2000) for _ in range(n - 1)])
     elif style == "ties":
@@ -753,7 +831,8 @@ def me_case(seed):
     out = [float(v) for v in out]
     if len(out) != len(x):
         fails.append(f"length {len(out)} != {len(x)}")
-    bad = [(p, q) for p in range(len(x)) for q in range(len(x)) if x[p] < x[q] and out[p] > out[q]]
+    bad = ([(p, q) for p in range(len(x)) for q in range(len(x)) if x[p] < x[q] and out[p] > out[q]]
+           if len(x) <= 200 else (["(vectorised check)"] if rank_order_violations(x, out) else []))
     if bad:
         fails.append(f"rank order of the source not kept: positions {bad[:3]} for x={x}")
     if L is not None and len(set(x)) > 1:
@@ -830,17 +909,19 @@ def probe_field_subset(ctx):
 
 
 # ------------------------------------------------------------------------------------------ moment_match
-def mm_case(seed):
+def mm_case(seed, big=None):
     import bermuda.utils as U
 
     rng = random.Random(seed)
-    t, n, info = gen_sample_triangle(rng, positive=True)
+    t, n, info = gen_big_sample(rng, big) if big else gen_sample_triangle(rng, positive=True)
     dist = rng.choice(["normal", "lognormal", "gamma"])
     avail = list(t.fields)
     fsel = rng.sample(avail, rng.randint(1, len(avail)))
     if rng.random() < 0.08:
         fsel.append("nope")
-    if rng.random() < 0.06:
+    if big:
+        fsel = ["paid_loss"] + [f for f in fsel if f not in ("paid_loss", "nope")]
+    elif rng.random() < 0.06:
         fsel = []                                # falsy but valid: nothing to match, nothing may change
     fails = []
     gseed = rng.choice([0, rng.randrange(10**6)])
@@ -884,8 +965,9 @@ def mm_case(seed):
                 if not (math.isclose(m_, mu, rel_tol=tol_m) and math.isclose(v_, var, rel_tol=tol_v)):
                     fails.append(f"{dist} parameters do not match the sample mean/variance: ({m_}, {v_}) vs ({mu}, {var})")
                 perm = [int(x) for x in v.argsort()]
-                tab_p.append(f"({i}%nat, {cstr(f)}, {nats(perm)})")
-                tab_d.append(f"({i}%nat, {cstr(f)}, {zs([r1024(x) for x in d])})")
+                if not big:
+                    tab_p.append(f"({i}%nat, {cstr(f)}, {nats(perm)})")
+                    tab_d.append(f"({i}%nat, {cstr(f)}, {zs([r1024(x) for x in d])})")
                 o = out.cells[i].values[f]
                 if not (isinstance(o, np.ndarray) and len(o) == len(v)):
                     fails.append(f"field {f}: replaced by something of another length/kind")
@@ -894,6 +976,9 @@ def mm_case(seed):
                         fails.append(f"field {f}: output is not a rearrangement of the drawn variates")
                     if [int(x) for x in o.argsort()] != perm and len(set(v.tolist())) == len(v) and len(set(d)) == len(d):
                         fails.append(f"field {f}: rank order of the source samples not kept")
+                    if not (math.isclose(float(np.mean(o)), float(np.mean(d)), rel_tol=1e-9, abs_tol=1e-9)
+                            and math.isclose(float(np.var(o)), float(np.var(d)), rel_tol=1e-9, abs_tol=1e-9)):
+                        fails.append(f"field {f}: mean / variance of the output differ from those of the drawn variates")
     if ptr != len(draws):
         fails.append(f"{len(draws)} sampler calls recorded, {ptr} accounted for")
     fails += plain_dates(out.cells)
@@ -909,6 +994,8 @@ def mm_case(seed):
     if canon(again) != canon(out):
         fails.append(f"np.random.seed({gseed}) twice gave different moment-matched triangles")
     try:
+        if big:
+            raise C.NotRepresentable("large")
         fl = "[" + ";".join(cstr(f) for f in fsel) + "]"
         term = (f"(let perms := [{';'.join(tab_p)}] in let draws := [{';'.join(tab_d)}] in let t := {C.ccells(t.cells)} in\n"
                 f"   list_eqb cell_seqb (moment_match {fl} (fun i k => look2 [] i k perms) (fun i k => look2 [] i k draws) t)\n"
@@ -916,7 +1003,27 @@ def mm_case(seed):
                 f"   && forallb (fun e => let '(i, k, p) := e in valid_perm_b (arr_of k (nth i t (mkCell KCell 0 0 0 None default_meta []))) p) perms)")
     except C.NotRepresentable:
         term = None
-    return {"coq": term, "fails": fails, "info": info, "n_cells": len(t)}
+    return {"coq": term, "fails": fails, "info": info, "n_cells": len(t), "digest": hash(canon(out))}
+
+
+def large_plan(quick):
+    """(kind, function, spec) of the LARGE stream: sizes cross the thresholds of notes/HARDENING.md family Q."""
+    T = [("thin", thin_case, {"cells": 600, "n": 7, "arrays": "sparse"}),          # >= 512 cells, arrays between strides
+         ("thin", thin_case, {"cells": 1100, "n": 3, "arrays": "all"}),            # > 1024 cells / 550 months
+         ("thin", thin_case, {"cells": 4, "n": 5000, "arrays": "all", "views": True}),
+         ("moment_match", mm_case, {"cells": 2, "n": 40000, "arrays": "all", "relation": False}),   # > 32768 samples
+         ("moment_match", mm_case, {"cells": 2, "n": 4096, "arrays": "all", "views": True}),
+         ("bootstrap", boot_case, {"P": 5, "L": 70, "slices": 1}),                 # rows of > 65 cells, > 64 evaluation dates
+         ("bootstrap", boot_case, {"P": 2, "L": 2, "slices": 260, "res": 3}),      # slice boundary past 256
+         ("bootstrap", boot_case, {"P": 1, "L": 130, "slices": 1, "fields": 1}),   # maximum entropy on a long row
+         ("max_entropy", me_case, {"n": 3000})]
+    if not quick:
+        T += [("thin", thin_case, {"cells": 2100, "n": 5, "arrays": "sparse"}), ("thin", thin_case, {"cells": 3100, "n": 4, "arrays": "all"}),
+              ("thin", thin_case, {"cells": 6, "n": 100000, "arrays": "all", "views": True}),
+              ("moment_match", mm_case, {"cells": 2, "n": 100000, "arrays": "all", "relation": False}),
+              ("bootstrap", boot_case, {"P": 12, "L": 90, "slices": 2}), ("bootstrap", boot_case, {"P": 2, "L": 3, "slices": 2200, "res": 3}),
+              ("max_entropy", me_case, {"n": 40000})]
+    return T
 
 
 # ------------------------------------------------------------------------------------------ the check
@@ -949,6 +1056,7 @@ def run(ctx):
             ("max_entropy", me_case, 300 * mult)]
     terms = []   # (kind, seed, term)
     nfail, nknown, nu1 = 0, 0, 0
+    early = []
     probe_field_subset(ctx)
     probe_limits(ctx)
     for kind, fn, count in plan:
@@ -975,6 +1083,8 @@ def run(ctx):
             if out["n_cells"] >= 2 or info.get("outcome") != "returned":
                 ctx.nontriv((kind, seed))
             ctx.count(evaluations=1)
+            if "digest" in out and not out["fails"] and sum(1 for e in early if e[0] == kind) < 6:
+                early.append((kind, fn, seed, out["digest"]))
             if kind == "max_entropy":
                 ctx.hist(f"max_entropy:L={'None' if info['L'] is None else 'one-sided' if None in info['L'] else 'two-sided'}")
             for msg in out.get("known", [])[:1]:          # the listed finding U1: upper limit exceeded
@@ -998,6 +1108,37 @@ def run(ctx):
                 terms.append((kind, seed, tm))
             if len(ctx.samples) < 3 and ts:
                 ctx.sample({"kind": kind, "seed": seed, "info": {k: str(v) for k, v in info.items()}})
+    # ---- LARGE stream (Python-side oracles only) and the re-check of the earliest small cases after it
+    big_fail = 0
+    for j, (kind, fn, spec) in enumerate(large_plan(ctx.quick)):
+        seed = ctx.seed * 1000 + j
+        with warnings.catch_warnings():
+            warnings.simplefilter("ignore")
+            with np.errstate(all="ignore"):
+                out = fn(seed, big=spec)
+        ctx.hist(f"LARGE:{kind}:{out['info'].get('shape')}")
+        ctx.count(evaluations=1)
+        ctx.nontriv(("large", kind, seed, repr(spec)))
+        for msg in out.get("known", [])[:1]:
+            ctx.violation("impl-violation", f"{kind}: {msg}", {"mode": kind, "seed": seed, "big": spec}, found_input=True, finding_class=U1)
+        if out["fails"]:
+            big_fail += 1
+            nfail += 1
+            ctx.violation("impl-violation", f"{kind} (large input {spec}): {out['fails'][0]}",
+                          {"mode": kind, "seed": seed, "big": spec, "fails": out["fails"][:5]}, found_input=True)
+    for kind, fn, seed, digest in early:
+        with warnings.catch_warnings():
+            warnings.simplefilter("ignore")
+            with np.errstate(all="ignore"):
+                out = fn(seed)
+        if out["fails"] or out.get("digest") != digest:
+            nfail += 1
+            ctx.violation("impl-violation", f"{kind}: an early small case gives another result after the large work of this process "
+                          f"(process-wide state): {out['fails'][:1]}", {"mode": kind, "seed": seed, "recheck": True, "fails": out["fails"][:3]},
+                          found_input=True)
+    ctx.hist("re-checked early cases after the large stream", len(early))
+    ctx.notes.append("LARGE cases (>= 512-3100 cells, 4096-100000-sample arrays, rows of > 65 cells, 260-2200 slices) are judged by the "
+                     "Python-side oracles only: no Coq literals; the theorems are size-independent, the correspondence samples sizes")
     ctx.obligation("direct oracles (structure, same positions, first cell, rank order, seed twice, sampler parameters)",
                    nfail == 0, f"{nfail} failing cases")
     ctx.extra["oracle_failures_in_known_finding_class"] = nknown
@@ -1066,7 +1207,7 @@ def replay(ctx, data):
         return 1
     with warnings.catch_warnings():
         warnings.simplefilter("ignore")
-        out = fn(data["seed"])
+        out = fn(data["seed"], big=data["big"]) if data.get("big") else fn(data["seed"])
     print(out["info"])
     for f in out["fails"]:
         print("FAIL:", f)
